@@ -237,4 +237,7 @@ func Run(c *hx.Ctx) {
 	runPart2(c) // kinds rw, rd, rt (c17b.go)
 	runPart4(c) // kind hw (c17r6.go)
 	runPart5(c) // kinds rp, re (c17r9.go)
+	runPart6(c) // kind hm (c17h10.go)
+	runAh(c)    // kind ah (c17h10ah.go)
+	runPa(c)    // kind pa (c17pt.go)
 }
